@@ -56,7 +56,7 @@ func c17Gen(rt *rapid.T) c17Case {
 		return name
 	}
 	for len(c.Ops) < n {
-		w := []string{"createdb", "use", "use", "show", "tick", "restart"}
+		w := []string{"createdb", "use", "use", "show", "tick", "restart", "createlong"}
 		if cur != "" {
 			w = append(w, "stmt", "stmt", "stmt", "stmt", "stmt", "stmt", "stmt", "stmt")
 		} else {
@@ -72,6 +72,13 @@ func c17Gen(rt *rapid.T) c17Case {
 			if dbs[name] == nil {
 				dbs[name] = model.NewDB()
 			}
+		case "createlong":
+			// a database name longer than most limits: accepted or refused - but a refusal may leave nothing behind
+			if len(dbs) == 0 {
+				continue
+			}
+			name := "a_long_" + strings.Repeat(rapid.SampledFrom([]string{"x", "y"}).Draw(rt, "longch"), rapid.SampledFrom([]int{58, 59, 70, 120, 200, 248}).Draw(rt, "longlen"))
+			c.Ops = append(c.Ops, c17Op{Op: "createlong", Name: name, SQL: st.KW("CREATE") + st.SP() + st.KW("DATABASE") + st.SP() + name + st.End()})
 		case "use":
 			names := append([]string{}, c17Names...)
 			names = append(names, "nosuch", "sho", "d1x")
@@ -214,6 +221,19 @@ func c17Run(c c17Case, st *vlib.Stats) string {
 				dbs[op.Name] = model.NewDB()
 				trs[op.Name] = NewIDTracker()
 			}
+			if msg := checkShow(where); msg != "" {
+				return msg
+			}
+		case "createlong":
+			err := eng.Exec(op.SQL)
+			if mk.IsPanic(err) {
+				return where + ": " + err.Error()
+			}
+			if err == nil && dbs[op.Name] == nil {
+				dbs[op.Name] = model.NewDB()
+				trs[op.Name] = NewIDTracker()
+			}
+			// refused: it must not be listed, and the next restart must not stumble over it
 			if msg := checkShow(where); msg != "" {
 				return msg
 			}
